@@ -1,9 +1,12 @@
 (* C10 -- Incomplete exploration is always reported.
    Statements only; proofs are `exact <lemma>` from Proofs/JumpiProofs.v (over Gen/GenJumpi.v, the
    decision part of SEVM.jumpi regenerated on every run) and Proofs/RunnerProofs.v (over
-   Gen/GenRunTest.v: which logs/warnings run_test, setup and run_target_function report). *)
+   Gen/GenRunTest.v: which logs/warnings run_test, setup and run_target_function report) and
+   Proofs/ReportProofs.v (over Gen/GenCutWarn.v: the --depth cut of SEVM.run and the text of its warning,
+   Gen/GenLogFilter.v: the de-duplicating logger of logs.py). *)
 From Coq Require Import ZArith List Bool.
-From HV Require Import Gen.GenJumpi Gen.GenRunTest Spec.PanicSpec Model.RunnerModel Proofs.JumpiProofs Proofs.RunnerProofs.
+From HV Require Import Gen.GenJumpi Gen.GenRunTest Gen.GenCutWarn Gen.GenLogFilter Spec.PanicSpec Model.RunnerModel Model.ReportModel
+  Proofs.JumpiProofs Proofs.RunnerProofs Proofs.ReportProofs.
 Import ListNotations.
 Open Scope Z_scope.
 
@@ -74,19 +77,66 @@ Theorem C10_no_width_warning_all_classified : forall (Q : Type) (sa sl : Q -> Z)
 Proof. exact run_test_no_width_warn_all_processed. Qed.
 Print Assumptions C10_no_width_warning_all_classified.
 
-(* invariant mode: the logs of setUp and of the invariant_* transaction are reported ... *)
-Theorem C10_invariant_flags_partial : forall r,
-  iv_setup r = true \/ iv_test r = true -> loop_bound_warned r = true.
-Proof. exact loop_bound_setup_and_test_reported. Qed.
-Print Assumptions C10_invariant_flags_partial.
+(* invariant mode: one run = setUp, the target transactions executed by run_target_function (each in a
+   private SEVM) and the invariant_* transaction.  The LOOP_BOUND warning is printed exactly when the
+   bounded-loop log of at least ONE of these transactions is non-empty -- for every number of target
+   transactions (regenerated constants setup/test/target_warns_loop_bound) *)
+Theorem C10_invariant_flags : forall r,
+  loop_bound_warned r = true <-> (iv_setup r = true \/ In true (iv_targets r) \/ iv_test r = true).
+Proof. exact loop_bound_warned_iff. Qed.
+Print Assumptions C10_invariant_flags.
 
-(* ... but NOT those of the transactions executed by run_target_function: each runs in a private
-   SEVM whose logs.bounded_loops nobody reads (regenerated constant target_warns_loop_bound = false).
-   The full statement `In true (iv_targets r) -> loop_bound_warned r = true` is false: *)
-Theorem C10_invariant_target_flags_refuted :
-  exists r, In true (iv_targets r) /\ loop_bound_warned r = false.
-Proof. exact loop_bound_in_target_not_reported. Qed.
-Print Assumptions C10_invariant_target_flags_refuted.
+(* an unsupported feature stops a path: the path is reported with output data None or a HalmosException
+   (wherever in the call tree the internal error was raised).  A PASS without --width warning means that
+   EVERY such path was an assertion-failure candidate (answered by the assertion solver) or was refuted by
+   the solver -- for every list of reported paths.  (is_stuck = CallContext.is_stuck, tied at L1/L3.) *)
+Theorem C10_pass_no_stuck : forall (Q : Type) (sa sl : Q -> Z) codes width (e : exploration Q),
+  r_exit (run_test Q sa sl codes width e) = EX_PASS ->
+  r_warn_width (run_test Q sa sl codes width e) = false ->
+  forall l, In l (ex_leaves e) ->
+    (match l_data l with None => true | Some _ => match root_err (l_ctx l) with EHalmos => true | _ => false end end) = true ->
+    (match is_panic_of (root_err (l_ctx l)) (l_data l) codes with TTrue => true | _ => false end) = true \/
+    global_fail (l_ctx l) = true \/ sl (l_query l) = S_UNSAT.
+Proof. exact pass_no_stuck. Qed.
+Print Assumptions C10_pass_no_stuck.
+
+(* GENUINE DEFECT (C10-setup-stuck-subcall-taken-as-success): setup() has no such guarantee.  Its success test
+   (regenerated: setup_path_ok has_error is_stuck = negb has_error) ignores is_stuck, so a setUp path stopped by
+   an internal error inside a sub-call (no error at the top level, output data None) is selected as THE
+   post-setUp state when it is the only error-free path; the tests then run from a half-executed setUp.
+   The statement `setup_select paths = SetupOk p -> sp_stuck p = false` is false of the faithful model: *)
+Theorem C10_setup_stuck_path_selected_refuted :
+  exists (paths : list (spath unit)) p,
+    setup_select unit (fun _ => S_SAT) paths = SetupOk p /\ sp_stuck p = true.
+Proof. exact setup_select_stuck_path_refuted. Qed.
+Print Assumptions C10_setup_stuck_path_selected_refuted.
+
+(* --depth: the guard regenerated from SEVM.run *)
+Theorem C10_depth_cut_guard : forall max_depth step_id,
+  depth_cut max_depth step_id = true <-> (max_depth <> 0 /\ step_id > max_depth).
+Proof. exact depth_cut_spec. Qed.
+Print Assumptions C10_depth_cut_guard.
+
+(* --depth: the warning goes through the process-wide de-duplicating logger (key = message text).  For every
+   sequence of test executions whose signatures are pairwise distinct (the tests of one contract, overloads
+   included), every limit, every number of abandoned states per test and every initial filter state that has
+   not seen their texts: a test's run prints the warning exactly when one of its states was abandoned. *)
+Theorem C10_depth_cut_reported : forall d runs records,
+  NoDup (map (fun t => fi_sig (tr_fun t)) runs) ->
+  (forall t, In t runs -> ~ In (depth_msg (tr_fun t) d) records) ->
+  session d runs records = map (fun t => negb (Nat.eqb (tr_cuts t) 0)) runs.
+Proof. exact depth_cut_reported. Qed.
+Print Assumptions C10_depth_cut_reported.
+
+(* GENUINE DEFECT (C10-depth-warning-dedup-across-contracts): the text carries no contract name and the filter
+   lives as long as the process, so with `distinct (contract, signature)` the statement is FALSE: the same test
+   signature in a second contract of the run loses its --depth warning (clean [PASS], observed at L3). *)
+Theorem C10_depth_cut_reported_across_contracts_refuted :
+  exists d runs,
+    NoDup (map (fun t => (fi_contract (tr_fun t), fi_sig (tr_fun t))) runs) /\
+    session d runs [] <> map (fun t => negb (Nat.eqb (tr_cuts t) 0)) runs.
+Proof. exact depth_cut_reported_across_contracts_refuted. Qed.
+Print Assumptions C10_depth_cut_reported_across_contracts_refuted.
 
 Example C10_nonvacuous :
   (* symbolic condition at the bound: the true side is cut and logged; one below the bound it is followed *)
@@ -96,6 +146,12 @@ Example C10_nonvacuous :
   d_follow_false (jumpi_decide R_UNKNOWN R_UNKNOWN 0 0 1) = true /\
   (* concrete condition, --loop 0 *)
   d_follow_true (jumpi_decide R_SAT R_UNSAT 1000 0 0) = true /\
-  loop_bound_warned (mkInvRun false [false; true] true) = true /\
-  loop_bound_warned (mkInvRun false [false; true] false) = false.
+  loop_bound_warned (mkInvRun false [false; true] false) = true /\
+  loop_bound_warned (mkInvRun false [false; false] false) = false /\
+  (* --depth: two overloads and another name in one contract, all cut: all warned; an uncut test is silent *)
+  session 200 [mkTestRun (mkFunInfo 1 5 7 9) 2; mkTestRun (mkFunInfo 1 5 8 10) 1; mkTestRun (mkFunInfo 1 6 11 12) 0] [] = [true; true; false] /\
+  depth_cut 200 201 = true /\ depth_cut 200 200 = false /\ depth_cut 0 1000000 = false /\
+  (* a path stopped by an internal error inside a sub-call (data None, no error at the root) makes the test STUCK *)
+  r_exit (run_test bool (fun _ => S_SAT) (fun _ => S_SAT) [1] 0
+            (mkExploration [mkLeaf (CNode ENone []) (Some []) true; mkLeaf (CNode ENone [CNode EHalmos []]) None true] false false)) = EX_STUCK.
 Proof. repeat split; reflexivity. Qed.
